@@ -57,15 +57,16 @@ type Enc struct {
 	curInstr ssa.Instruction
 	curIdx   int
 	errs     []string
-	dec0     map[*ssa.BasicBlock]string // value of each loop's variant at its header
+	dec0     map[*ssa.BasicBlock]string         // value of each loop's variant at its header
 	loopPre  map[*ssa.BasicBlock]map[string]int // heap versions at entry to each loop (for pre(e))
 	letLevel map[string]int                     // quantifier depth at which each macro let-name was introduced
 	opaque   map[string]string                  // opaque define @ heap signature -> function symbol
+	letDef   map[string]string                  // macro let-name -> bound term
 	refVals  map[string][]string                // heap name -> reference terms of SSA values seen so far that index it
 	refSeen  map[string]bool
 	refBlk   map[string]*ssa.BasicBlock // block in which a registered reference term was first seen
 	ancCache map[*ssa.BasicBlock]map[*ssa.BasicBlock]bool
-	heapLog  map[string]bool                    // when non-nil: heap terms read during elaboration
+	heapLog  map[string]bool // when non-nil: heap terms read during elaboration
 }
 
 func (e *Enc) errorf(f string, a ...interface{}) {
@@ -121,7 +122,7 @@ func (e *Enc) heapAt(h string, v int) string {
 	return name
 }
 
-func (e *Enc) H(h string) string { return e.heapAt(h, e.cur[h]) }
+func (e *Enc) H(h string) string  { return e.heapAt(h, e.cur[h]) }
 func (e *Enc) H0(h string) string { return e.heapAt(h, 0) }
 
 // bump creates a new version of heap h and makes it current.
